@@ -190,12 +190,12 @@ def project_result(form, ports):
         for c, ps in pu:
             uo.append({"c": units(c), "p": sorted(idx[p] for p in ps)})
         uo.sort(key=lambda x: (x["c"], x["p"]))
-    return {"unk": unk, "tp": units(form.throughput), "lat": units(form.latency),
+    return {"unk": unk, "lu": "lt_unknown" in [str(f) for f in form.flags], "tp": units(form.throughput), "lat": units(form.latency),
             "lw": units(form.latency_wo_load), "pr": [units(x) for x in form.port_pressure], "uo": uo}
 
 
 def canon_result(r):
-    return json.dumps({"unk": r["unk"], "tp": r["tp"], "lat": r["lat"], "lw": r["lw"], "pr": list(r["pr"]),
+    return json.dumps({"unk": r["unk"], "lu": r.get("lu"), "tp": r["tp"], "lat": r["lat"], "lw": r["lw"], "pr": list(r["pr"]),
                        "uo": sorted(([x["c"], sorted(x["p"])] for x in r["uo"]))}, sort_keys=True)
 
 
